@@ -13,6 +13,7 @@ import (
 	"github.com/ipld/go-ipld-prime/node/gendemo"
 	"github.com/ipld/go-ipld-prime/schema"
 
+	"verif/lib/build"
 	"verif/lib/fnode"
 	"verif/lib/fw"
 	"verif/lib/model"
@@ -168,6 +169,21 @@ func c12Init() {
 		{childPinned: true, name: "gendemo.Msg3.Repr", proto: gendemo.Type.Msg3__Repr, gen: c12GenMsg3, typed: true},
 		{childPinned: true, name: "gendemo.Map__String__Msg3", proto: gendemo.Type.Map__String__Msg3, gen: c12GenMapMsg3, typed: true},
 		{childPinned: true, name: "gendemo.Map__String__Msg3.Repr", proto: gendemo.Type.Map__String__Msg3__Repr, gen: c12GenMapMsg3, typed: true},
+		// values not nullable: the Go slot is a bare datamodel.Node (kept last: other checks refer to targets by index)
+		{name: "bindnode.{String:Any}", proto: c01MapAnyNNP, typed: true, gen: func(r *fw.RNG) model.Val {
+			for {
+				v := genMapNoNull(r)
+				ok := true
+				for _, e := range v.M {
+					if e.V.K == model.KNull {
+						ok = false
+					}
+				}
+				if ok {
+					return v
+				}
+			}
+		}},
 	}
 }
 
@@ -277,6 +293,15 @@ func (s *c12Seq) assemble(na datamodel.NodeAssembler, v model.Val, pinned bool, 
 		s.wrongKindOnTyped(na, v, where)
 		s.ended = true
 		return errC12Stop
+	}
+	// one scalar in four arrives as a finished node (basicnode or the harness's own implementation) through
+	// AssignNode instead of Assign<Kind>: an accepted entry must be there whichever way its value came
+	// (round-3 seed C12-9: an AssignNode shortcut for Any positions that skips the assembler's finish step)
+	if v.K != model.KList && v.K != model.KMap && v.K != model.KUint && s.rng.Chance(1, 4) {
+		impl := s.rng.Intn(2)
+		s.log("AssignNode(%s node, impl %d)", v.K, impl)
+		s.c.Count("scalar_via_assignnode", 1)
+		return na.AssignNode(build.Source(v, impl))
 	}
 	switch v.K {
 	case model.KNull:
